@@ -6,7 +6,11 @@ all of the layer's own entries are gone.*
 
 Only the plain data of `Model/RmTree.lean` is used (`Node`, `FS`, the accessor `fget`, byte strings); none of its
 system calls or operations. A file system state is what a whole-root snapshot records: for every path its kind and,
-per kind, mode + content / mode / link target. Two nodes are the same iff all of that is equal (`Node`'s equality).
+per kind, mode + content / mode / link target; a regular file that has several names (hard links) is recorded under
+each of them with its inode, mode and content. Two nodes are the same iff all of that is equal (`Node`'s equality) —
+so "exactly as it was" for a file outside the layer means its mode and its content are what they were, whether or not
+its inode also has a name inside the layer. (The link *count* of such a file is not part of its node: it goes down,
+rightly, when the layer's names go.)
 -/
 namespace CnbVerif.Spec.Frame
 open CnbVerif CnbVerif.RmTree
@@ -37,7 +41,8 @@ def own (n : Name) (p : Path) : Bool :=
 /-- `Outside n p`: `p` is none of the layer's own paths -/
 def outside (n : Name) (p : Path) : Bool := !own n p
 
-/-- `SameNode`: same kind, same mode, same content, same link target — or absent in both -/
+/-- `SameNode`: same kind, same mode, same content, same link target, same inode for a file with several names — or
+absent in both -/
 def sameNode (a b : Option Node) : Bool := decide (a = b)
 
 /-- **Frame.** Everything outside the layer is exactly as it was. -/
